@@ -40,35 +40,62 @@ def run_driver(drv, args, timeout, race=False):
 
 _ACC = re.compile(r"(?:Read|Write|Previous read|Previous write) at \S+ by (?:main )?goroutine[^\n]*:\n((?:  \S[^\n]*\n\s+\S[^\n]*\n)+)")
 _FRAME = re.compile(r"  (\S+)\n\s+(\S+?):(\d+)")
+_SRC = {}
+
+
+def _lines(path):
+    if path not in _SRC:
+        try:
+            _SRC[path] = Path(path).read_text().splitlines()
+        except Exception:
+            _SRC[path] = []
+    return _SRC[path]
+
+
+def lock_state(path, line):
+    """textual state of pool.mu at `line` inside its function: True (taken before the line and not released),
+    False (released before the line), None (the function does not touch pool.mu before the line)"""
+    src = _lines(path)
+    i = min(line, len(src)) - 1
+    start = i
+    while start > 0 and not src[start].startswith("func "):
+        start -= 1
+    state = None
+    for ln in src[start:i]:
+        if re.search(r"defer\s+pool\.mu\.R?Unlock\(\)", ln):
+            continue
+        if re.search(r"pool\.mu\.R?Lock\(\)", ln):
+            state = True
+        elif re.search(r"pool\.mu\.R?Unlock\(\)", ln):
+            state = False
+    return state
 
 
 def parse_races(stderr):
-    """-> list of dicts {field, funcs, in_repo, text} (one per distinct report)."""
+    """-> list of dicts {field, unlocked, funcs, in_repo, text}, one per report.  `field`: the identifier both
+    accessing source lines (innermost frames inside the repository) have in common; `unlocked`: the functions
+    whose access is, textually, not made under pool.mu in any frame of its stack."""
     out = []
+    repo = str(vlib.REPO) + "/"
     for rep in stderr.split("WARNING: DATA RACE")[1:]:
         rep = rep.split("==================")[0]
-        tops, in_repo = [], False
+        idents, funcs, unlocked, in_repo = None, set(), set(), False
         for m in _ACC.finditer(rep):
-            frames = _FRAME.findall(m.group(1))
-            if frames:
-                tops.append(frames[0])
-            for fn, path, _ in frames:
-                if path.startswith(str(vlib.REPO) + "/"):
-                    in_repo = True
-        idents = None
-        for fn, path, line in tops:
-            try:
-                src = Path(path).read_text().splitlines()[int(line) - 1]
-            except Exception:
-                src = ""
-            ids = set(re.findall(r"\.(\w+)", src))
+            frames = [(fn, path, int(line)) for fn, path, line in _FRAME.findall(m.group(1)) if path.startswith(repo)]
+            if not frames:
+                continue
+            in_repo = True
+            fn, path, line = frames[0]
+            short = fn.split(".")[-1].rstrip("()")
+            funcs.add(short)
+            src = _lines(path)
+            ids = set(re.findall(r"\.(\w+)", src[line - 1] if line <= len(src) else ""))
             idents = ids if idents is None else idents & ids
-        field = sorted(idents)[0] if idents else "?"
-        if idents and len(idents) > 1:
-            pref = [i for i in sorted(idents) if i not in ("pool", "mu", "Lock", "Unlock")]
-            field = pref[0] if pref else field
-        funcs = "|".join(sorted(set(fn.split("/")[-1].rstrip("()") for fn, _, _ in tops)))
-        out.append({"field": field, "funcs": funcs, "in_repo": in_repo, "text": rep[:6000]})
+            if not any(lock_state(p, l) is True for _, p, l in frames):
+                unlocked.add(short)
+        cand = sorted(i for i in (idents or []) if i not in ("mu", "Lock", "Unlock", "RLock", "RUnlock", "logger"))
+        out.append({"field": cand[0] if cand else "?", "unlocked": "|".join(sorted(unlocked)),
+                    "funcs": "|".join(sorted(funcs)), "in_repo": in_repo, "text": rep[:6000]})
     return out
 
 
@@ -99,7 +126,7 @@ def handle_driver_output(col, p, what, replay_base, race=False):
         for r in parse_races(err):
             if not r["in_repo"]:
                 raise Broken("data race inside the harness itself:\n" + r["text"][:3000])
-            col.reports.append(({"kind": "race", "field": r["field"], "funcs": r["funcs"]},
+            col.reports.append(({"kind": "race", "field": r["field"], "unlocked": r["unlocked"], "funcs": r["funcs"]},
                                 dict(replay_base, race_report=r["text"])))
     if p.returncode != 0:
         if "panic:" in err or "fatal error:" in err:
